@@ -462,7 +462,7 @@ var c11Args = []argVal{
 	aNull, aTrue, {Text: "false", Kind: "bool"},
 	aNum("3", "3"), aNum("0", "0"), aNum("(-2)", "-2"), aNum("2.7", "27/10"), aNum("(-2.7)", "-27/10"), aNum("0.5", "1/2"), aNum("100", "100"), aNum("(1+1)", "2"), aNum("0.1", "1/10"), aNum("(-0.9)", "-9/10"), aNum("127", "127"),
 	aNum("3.0", "3"), aNum("30e-1", "3"), aNum("(1.5 * 2)", "3"), aNum("(-2.70)", "-27/10"), aNum("1e2", "100"), aNum("(0 * -1)", "0"),
-	aStr("s"), aStr(""), aStr("12"),
+	aStr("s"), aStr(""), aStr("12"), aStr("2024-01-02T03:04:05Z"), aStr("1e3"), aStr("null"),
 	aArr(), aArr(aNum("1", "1"), aNum("2", "2")), aArr(aStr("a"), aStr("b")), aArr(aNum("1", "1"), aStr("a")), aArr(aArr(aNum("1", "1"))), aArr(aNum("2.7", "27/10"), aNum("(-2.7)", "-27/10")), aArr(aNull),
 	aMap, aTime,
 }
